@@ -18,7 +18,7 @@ ID = "C16"
 LEVEL = "fault_enumeration"
 TIERS = {
   "quick": {"runs": 96, "chunk": 6, "budget_s": 480, "timeout_s": 400},
-  "thorough": {"runs": 1200, "chunk": 8, "budget_s": 3300, "timeout_s": 600},
+  "thorough": {"runs": 384, "chunk": 6, "budget_s": 1800, "timeout_s": 600},
 }
 RULE = ("one evaluation = one (probe state, capacity kind, capacity value) step compared world by world with the ample-capacity step from the "
         "same state; per probe state the capacity axis is enumerated completely in [0, need+1] when need <= 24 (else {0,1,2,need-2..need+1} "
